@@ -420,7 +420,51 @@ class Frag:
             return vals[0], vals[1], C(1)
         return vals[0], vals[1], vals[2]
 
+    on_len = None      # optional hook (fr, expr) -> Rat: number of entries of a sequence expression (for `zip` loops)
+
+    def _zip_as_range(self, s: ast.For):
+        """`for a, b in zip(X[k:], Y[k:]): BODY` is the index loop `for i in range(k, len): a = X[i]; b = Y[i]; BODY` when the sequences
+        have one known length; `for a in X[k:]` likewise.  Returns the rewritten For or None."""
+        it = s.iter
+        args = list(it.args) if isinstance(it, ast.Call) and isinstance(it.func, ast.Name) and it.func.id == "zip" and not it.keywords else \
+            ([it] if isinstance(it, (ast.Name, ast.Subscript, ast.Attribute)) else None)
+        if args is None or self.on_len is None:
+            return None
+        targets = list(s.target.elts) if isinstance(s.target, ast.Tuple) else [s.target]
+        if len(targets) != len(args) or not all(isinstance(t, ast.Name) for t in targets):
+            return None
+        bases, lows = [], []
+        for a in args:
+            lo = 0
+            if isinstance(a, ast.Subscript) and isinstance(a.slice, ast.Slice):
+                sl = a.slice
+                if sl.upper is not None or sl.step is not None or not (sl.lower is None or (isinstance(sl.lower, ast.Constant) and isinstance(sl.lower.value, int) and sl.lower.value >= 0)):
+                    return None
+                lo = sl.lower.value if sl.lower is not None else 0
+                a = a.value
+            bases.append(a)
+            lows.append(lo)
+        if len(set(lows)) != 1:
+            return None
+        lens = [self.on_len(self, b) for b in bases]
+        if any(l is None for l in lens) or not all(l.eq(lens[0]) for l in lens):
+            return None
+        idx = "__zip%d" % len(self.loop_syms)
+        self.env["__ziplen"] = lens[0]
+        pre = [ast.Assign(targets=[ast.Name(id=t.id, ctx=ast.Store())], value=ast.Subscript(value=b, slice=ast.Name(id=idx, ctx=ast.Load()), ctx=ast.Load()))
+               for t, b in zip(targets, bases)]
+        new = ast.For(target=ast.Name(id=idx, ctx=ast.Store()),
+                      iter=ast.Call(func=ast.Name(id="range", ctx=ast.Load()), args=[ast.Constant(value=lows[0]), ast.Name(id="__ziplen", ctx=ast.Load())], keywords=[]),
+                      body=pre + list(s.body), orelse=[])
+        for n in ast.walk(new):
+            ast.copy_location(n, s)
+        return ast.fix_missing_locations(new)
+
     def run_for(self, s: ast.For):
+        if not s.orelse and not (isinstance(s.target, ast.Name) and isinstance(s.iter, ast.Call) and isinstance(s.iter.func, ast.Name) and s.iter.func.id == "range"):
+            z = self._zip_as_range(s)
+            if z is not None:
+                s = z
         if s.orelse or not isinstance(s.target, ast.Name):
             raise Uninterpretable("for-else / non-name loop target")
         lo, hi, step = self.range_args(s.iter)
